@@ -77,6 +77,9 @@ pub struct RandCfg {
     /// hash whose environment is frozen from a random point on (C14)
     #[serde(default)]
     pub freeze: String,
+    /// number of direct calls of wait_payment / pay (Engine A-prov; C15, C16)
+    #[serde(default)]
+    pub direct: u32,
 }
 fn forty() -> usize {
     40
@@ -148,6 +151,7 @@ pub struct Driver {
     crashes_left: u32,
     wfaults_left: u32,
     rfaults_left: u32,
+    direct_left: u32,
     pays: usize,
     frozen: bool,
     freeze_at: usize,
@@ -272,6 +276,7 @@ impl Driver {
             crashes_left: r.crashes,
             wfaults_left: r.wfaults,
             rfaults_left: r.rfaults,
+            direct_left: r.direct,
             pays: 0,
             frozen: false,
             freeze_at,
@@ -465,6 +470,12 @@ impl Driver {
                     ev["part"] = json!(p);
                     self.line(ev);
                 }
+                None if step["orphan_ok"].as_bool().unwrap_or(false) => {
+                    // a part left behind by an earlier attempt (Engine A-prov)
+                    let hash = step["sel"]["hash"].as_str().unwrap_or("h1").to_string();
+                    let p = sim::with(|s| s.orphan_part(&hash));
+                    self.line(json!({"ev":"paypart","kind":"pay","call":0,"hash":hash,"part":p}));
+                }
                 None => self.diverged += 1,
             },
             "partdone" => {
@@ -657,6 +668,13 @@ impl Driver {
             let code = [202, 203, 204, 209][self.rng.below(4) as usize];
             v.push((5, json!({"a":"partdone","p":p,"how":"failed","code":code})));
         }
+        if !drain && self.direct_left > 0 && sim::with(|s| s.outstanding().is_empty()) {
+            if nparts < r.maxparts {
+                v.push((6, json!({"a":"paypart","sel":{"kind":"pay","hash":"h1"},"orphan_ok":true})));
+            }
+            v.push((3, json!({"a":"wp","hash":"h1"})));
+            v.push((3, json!({"a":"paycall","hash":"h1","inv":1})));
+        }
         if !drain {
             let now = sim::with(|s| s.now);
             if now < r.maxclock {
@@ -688,6 +706,7 @@ impl Driver {
     fn account(&mut self, step: &Value) {
         match step["a"].as_str().unwrap_or("") {
             "crash" => self.crashes_left = self.crashes_left.saturating_sub(1),
+            "wp" | "paycall" => self.direct_left = self.direct_left.saturating_sub(1),
             "exec" => match step["fault"].as_str().unwrap_or("none") {
                 "reject" | "lost" => self.wfaults_left = self.wfaults_left.saturating_sub(1),
                 "error" => self.rfaults_left = self.rfaults_left.saturating_sub(1),
